@@ -3,8 +3,11 @@
 ID=$1; SD=$2
 cd /verif
 git -C /repo apply "$SD/patch.diff" || { echo "patch does not apply"; exit 2; }
+# the evidence file written while the change is applied describes the CHANGED tree: keep the clean-tree one
+cp "evidence/$ID.json" "/tmp/try_seed_evidence_$ID.json" 2>/dev/null
 bin/check "$ID" > /tmp/try_seed.out 2>&1; RC=$?
 git -C /repo checkout -- .
+cp "/tmp/try_seed_evidence_$ID.json" "evidence/$ID.json" 2>/dev/null
 echo "exit=$RC"
 grep -E "VIOLATION|UNDECIDED|KNOWN|error|Error" /tmp/try_seed.out | cut -c1-260 | head -8
 [ -z "$(git -C /repo status --short)" ] || echo "WARNING: /repo not clean"
